@@ -144,7 +144,8 @@ def make_instance(rng, template, tmpdir, tag):
         refs.update(grammar=RG, start_variable='T', length=int(s['length']))
     elif template in ('dfa-complement', 'dfa-reverse', 'dfa-hopfcroft', 'dfa-minimal', 'dfa-for-language', 'dfa-to-regexp'):
         if template == 'dfa-to-regexp':
-            R = ref_dfa(rng, max_states=3, syms=rng.choice(['ab', 'xy', 'a']))
+            syms = rng.choice(['ab', 'xy', 'a', 'abc', 'xyz'])
+            R = ref_dfa(rng, max_states=3 if len(syms) <= 2 else 2, syms=syms)
         elif template in ('dfa-hopfcroft', 'dfa-minimal'):
             R = ref_dfa(rng, max_states=6, connected=rng.random() < 0.5)
         else:
